@@ -32,7 +32,7 @@ var authItems = []string{
 	"S21-session-of-another-name-resumed", "S20-only-unknown-extended-key-usage", "C15-only-unknown-extended-key-usage",
 	"S22-name-constrained-ca-permits-name(allowed)", "S22-name-constrained-ca-permits-parent-domain(allowed)", "S22-name-constrained-ca-lookalike-suffix", "S22-name-constrained-ca-other-domain", "S22-name-constrained-ca-subdomain-only",
 	"S23-skx-signed-with-encryption-key", "S24-pinned-selfsigned-pair(allowed)", "S24-pinned-pair-other-name", "S24-pinned-pair-not-yet-valid", "S24-pinned-pair-expired",
-	"S25-common-name-matches-san-does-not", "S26-pair-under-expired-ca", "C16-leaf-under-expired-intermediate", "TS25-common-name-matches-san-does-not", "C17-leaf-below-ca-issued-under-pathlen-0", "C17-leaf-directly-below-pathlen-0-ca(allowed)", "C18-verifying-policy-no-client-cas-genuine-cert", "C18-verifying-policy-no-client-cas-selfsigned-cert",
+	"S25-common-name-matches-san-does-not", "S26-pair-under-expired-ca", "S27-pair-expired-since-the-cached-session", "S27-other-encryption-certificate-since-the-cached-session", "C16-leaf-under-expired-intermediate", "TS25-common-name-matches-san-does-not", "C17-leaf-below-ca-issued-under-pathlen-0", "C17-leaf-directly-below-pathlen-0-ca(allowed)", "C18-verifying-policy-no-client-cas-genuine-cert", "C18-verifying-policy-no-client-cas-selfsigned-cert",
 	"S19-wildcard-one-label(allowed)", "S19-wildcard-deeper-name", "S19-wildcard-parent-name", "TS19-wildcard-one-label(allowed)", "TS19-wildcard-deeper-name", "TS19-wildcard-parent-name",
 	"TS0-honest-server", "TS1-untrusted-root", "TS3-wrong-name", "TS10-rsa-key-not-held", "TS5-ecdhe-params-signed-by-other-key", "TS6-ecdhe-params-signature-over-other-randoms", "TS9-ecdhe-params-signature-garbage", "TS4-ecdsa-cert-for-rsa-suite",
 	"TC0-honest-client", "TC1-no-cert", "TC2-untrusted-ca", "TC3-cv-other-key", "TC4-cv-other-transcript", "TC5-cv-omitted", "TC5-cv-omitted-enc-only-cert", "TC3-cv-other-key-enc-only-cert", "TC12-certificate-message-omitted", "TC8-ifgiven-no-cert",
@@ -72,6 +72,9 @@ type impRun struct {
 	TLS             bool      // plain TLS 1.2 victim and impostor (RSA / ECDHE_RSA suites)
 	VictimRoots     string    // TLS victim client: trusted root (default rsaCA)
 	NoClientCAs     bool      // victim server: ClientCAs left nil
+	SecondEnc       string    // CacheFirst: encryption identity the server switches to for session 2
+	CacheFirst      bool      // session 1: the victim client completes an honest handshake with the same peer and caches the session; session 2 is a full handshake again
+	CallbackAccepts bool      // the victim has a VerifyPeerCertificate callback that accepts everything (logging, pinning elsewhere): verdicts must not change
 	ExtraRoot       string    // GMSSL victim client: a further trust anchor besides caA (the GMSSL client does not take intermediates from the Certificate message)
 	OtherNameFirst  bool      // session 1: the victim client asks the impostor for server2.sim (legitimately) and caches the session
 }
@@ -95,7 +98,7 @@ func drawImpostor(c *simkit.Choice, ent *simkit.Stream) impRun {
 			"S4-rsa-sign-cert", "S4-p256-sign-cert", "S4-rsa-enc-cert", "S5-skx-other-key", "S6-skx-replayed-randoms", "S7-skx-other-enc-cert", "S8-skx-omitted", "S9-skx-malformed", "S10-no-enc-key", "S11-certs-swapped", "S12-one-cert", "S13-eku-clientauth-only", "S14-keyusage-sign-cert", "S14-keyusage-enc-cert", "V1-client-callback-rejects", "S15-untrusted-ca-ships-its-root", "S15-extra-unrelated-selfsigned", "S16-dual-usage-sign-cert-enc-key-not-held", "S17-lookalike-of-trusted-root", "S18-leaves-issued-by-v1-end-entity", "S19-wildcard-one-label(allowed)", "S19-wildcard-deeper-name", "S19-wildcard-parent-name", "S21-session-of-another-name-resumed", "S20-only-unknown-extended-key-usage",
 			"S22-name-constrained-ca-permits-name(allowed)", "S22-name-constrained-ca-permits-parent-domain(allowed)", "S22-name-constrained-ca-lookalike-suffix", "S22-name-constrained-ca-other-domain", "S22-name-constrained-ca-subdomain-only",
 			"S23-skx-signed-with-encryption-key", "S24-pinned-selfsigned-pair(allowed)", "S24-pinned-pair-other-name", "S24-pinned-pair-not-yet-valid", "S24-pinned-pair-expired",
-			"S25-common-name-matches-san-does-not", "S26-pair-under-expired-ca"}
+			"S25-common-name-matches-san-does-not", "S26-pair-under-expired-ca", "S27-pair-expired-since-the-cached-session", "S27-other-encryption-certificate-since-the-cached-session"}
 		ir.Item = items[c.Choose(len(items), simkit.LFault)]
 		switch ir.Item {
 		case "S0-honest-server":
@@ -217,6 +220,18 @@ func drawImpostor(c *simkit.Choice, ent *simkit.Stream) impRun {
 			if ca == "ncok" || ca == "ncdot" {
 				ir.Expect = expComplete
 			}
+		case "S27-pair-expired-since-the-cached-session":
+			// the victim knows this server: an earlier handshake (at a time when the pair
+			// was valid) left a session in its cache. Now the pair has expired; the server
+			// does not resume, and the full handshake shows the same certificates.
+			sc.Sign, sc.Enc = ident("srvnarrow-sign", true), ident("srvnarrow-enc", true)
+			ir.NeedS1, ir.CacheFirst = true, true
+			ir.Skew = 2*day + int64(c.Choose(3600, simkit.LFault))*1e9
+		case "S27-other-encryption-certificate-since-the-cached-session":
+			// same, but this time the known signing certificate comes with an encryption
+			// certificate from a CA the victim does not trust
+			ir.NeedS1, ir.CacheFirst = true, true
+			ir.SecondEnc = "srvB-enc"
 		case "S25-common-name-matches-san-does-not":
 			// CA-issued pair for mallory.sim (subjectAltName) whose common name says server.sim:
 			// where a subjectAltName is present the common name does not count
@@ -506,6 +521,9 @@ func runAuthImpostor(c *simkit.Choice, r *simkit.Rec) {
 	entV := simkit.NewStream(uint64(c.Choose(1<<31, simkit.LEntropy)) + 41)
 	entI := simkit.NewStream(uint64(c.Choose(1<<31, simkit.LEntropy)) + 43)
 	ir := drawImpostor(c, entI)
+	if !ir.CallbackRejects && c.Bool(1, 4, simkit.LScen) {
+		ir.CallbackAccepts = true
+	}
 	n1, n2 := simkit.DrawNetCfg(c), simkit.DrawNetCfg(c)
 	pol := simkit.Policy{StarveNode: -1, MeanGap: []int{0, 9}[c.Choose(2, simkit.LScen)]}
 	s := simkit.NewSim(c, pol, 3000000)
@@ -530,9 +548,13 @@ func runAuthImpostor(c *simkit.Choice, r *simkit.Rec) {
 			reject := func(rawCerts [][]byte, chains [][]*x509.Certificate) error {
 				return errors.New("verifsim: application-level verification says no")
 			}
+			accept := func(rawCerts [][]byte, chains [][]*x509.Certificate) error { return nil }
 			if ir.TLS && ir.VictimSrv {
 				vs := &gmtls.Config{Rand: entV, Time: simTime(s, skew), Certificates: []gmtls.Certificate{pki.GMStd("tlsrsa")}, CipherSuites: []uint16{ir.Suite},
 					ClientAuth: policy, ClientCAs: pki.Pool("rsaCA"), SessionTicketsDisabled: true}
+				if ir.CallbackAccepts {
+					vs.VerifyPeerCertificate = accept
+				}
 				conn = gmtls.Server(vRaw, vs)
 			} else if ir.TLS {
 				roots := "rsaCA"
@@ -543,6 +565,9 @@ func runAuthImpostor(c *simkit.Choice, r *simkit.Rec) {
 				if ir.VictimName != "" && tag == "2" {
 					vc.ServerName = ir.VictimName
 				}
+				if ir.CallbackAccepts {
+					vc.VerifyPeerCertificate = accept
+				}
 				conn = gmtls.Client(vRaw, vc)
 			} else if ir.VictimSrv {
 				vs := victimServerCfg(s, ir.Suite, entV, skew, policy)
@@ -551,6 +576,9 @@ func runAuthImpostor(c *simkit.Choice, r *simkit.Rec) {
 				}
 				if ir.CallbackRejects && tag == "2" {
 					vs.VerifyPeerCertificate = reject
+				}
+				if ir.CallbackAccepts {
+					vs.VerifyPeerCertificate = accept
 				}
 				conn = gmtls.Server(vRaw, vs)
 			} else {
@@ -561,14 +589,17 @@ func runAuthImpostor(c *simkit.Choice, r *simkit.Rec) {
 				if ir.ExtraRoot != "" {
 					vc.RootCAs = pki.Pool(append([]string{"caA"}, strings.Split(ir.ExtraRoot, ",")...)...)
 				}
-				if ir.OtherNameFirst {
+				if ir.OtherNameFirst || ir.CacheFirst {
 					vc.ClientSessionCache = victimCache
-					if tag == "1" {
+					if tag == "1" && ir.OtherNameFirst {
 						vc.ServerName = "server2.sim"
 					}
 				}
 				if ir.CallbackRejects && tag == "2" {
 					vc.VerifyPeerCertificate = reject
+				}
+				if ir.CallbackAccepts {
+					vc.VerifyPeerCertificate = accept
 				}
 				conn = gmtls.Client(vRaw, vc)
 			}
@@ -609,15 +640,18 @@ func runAuthImpostor(c *simkit.Choice, r *simkit.Rec) {
 	}
 	var s1, s2 sess
 	d1, d2 := &simkit.Flag{Name: "s1"}, &simkit.Flag{Name: "s2"}
-	if ir.NeedS1 && ir.OtherNameFirst {
+	if ir.NeedS1 && (ir.OtherNameFirst || ir.CacheFirst) {
 		// session 1: the impostor, honest under its own name, hands out a ticket
 		first := *ir.scfg
 		first.IssueTicket = drawDataStream(entI, 96)
 		runSession("1", &first, nil, 0, 0, &s1, d1)
 		s.Spawn("driver", 2, func() {
 			s.WaitFlag(d1)
-			if s1.peerRes != nil {
+			if s1.peerRes != nil && ir.OtherNameFirst {
 				ir.scfg.Resume = &reftls.ResumeState{Ticket: first.IssueTicket, Master: s1.peerRes.Master, Suite: s1.peerRes.Suite, Vers: s1.peerRes.SH.Vers}
+			}
+			if ir.SecondEnc != "" {
+				ir.scfg.Enc = ident(ir.SecondEnc, true)
 			}
 			runSession("2", ir.scfg, ir.ccfg, ir.Skew, ir.Policy, &s2, d2)
 		})
